@@ -180,6 +180,11 @@ def o_C01(sc):
         return 'C01 breakpoints: impl %s expected %s' % (list(p.x), [float(v) for v in xs])
     if not aeq(p.y, [float(v) for v in ys]):
         return 'C01 values: impl %s expected %s' % (list(p.y), [float(v) for v in ys])
+    # the scalar form follows the same definition: time average of the profile of the definition
+    e = sum((xs[k + 1] - xs[k]) * ys[k] for k in range(len(ys))) / (te - ts)
+    d = quiet(spk.isi_distance, mk(sc['trains'][0]), mk(sc['trains'][1]), **kwargs_of(sc))
+    if not feq(d, e):
+        return 'C01 isi_distance %r, time average of the definition %s' % (d, float(e))
     return None
 
 
@@ -973,6 +978,30 @@ def o_C19b(sc):
         w.sort()
         if list(w.spikes) != sorted(float(v) for v in vals):
             return 'C19 SpikeTrain.sort() gives %s' % list(w.spikes)
+    # 0/1 time series: one train per row (all-zero rows included), spikes at start + (k+1)*bin
+    nrow = 1 + len(sc['values']) % 4
+    ncol = 2 + sum(len(v) for v in sc['values']) % 5
+    bits = [[(len(sc['values'][(r + c) % len(sc['values'])]) + r * c + c) % 3 == 0 for c in range(ncol)] for r in range(nrow)]
+    if nrow > 1:
+        bits[-1] = [False] * ncol                       # a silent last row
+    if nrow > 2:
+        bits[0] = [False] * ncol                        # and a silent first one
+    d = os.path.join(os.path.dirname(os.path.dirname(os.path.abspath(__file__))), 'build')
+    path = os.path.join(d, 'c19ts_%d.txt' % os.getpid())
+    start, binw = 2.0, 0.25
+    try:
+        open(path, 'w').write('\n'.join(' '.join('1' if b else '0' for b in row) for row in bits) + '\n')
+        R = spk.import_spike_trains_from_time_series(path, start, binw)
+    finally:
+        if os.path.exists(path):
+            os.remove(path)
+    if len(R) != nrow:
+        return 'C19 time series with %d rows imported as %d trains' % (nrow, len(R))
+    for row, t in zip(bits, R):
+        exp = [start + (k + 1) * binw for k, b in enumerate(row) if b]
+        if list(t.spikes) != exp or t.t_start != start or t.t_end != start + ncol * binw:
+            return 'C19 time series row %s imported as %s on [%r,%r], expected %s on [%r,%r]' % (
+                [int(b) for b in row], list(t.spikes), t.t_start, t.t_end, exp, start, start + ncol * binw)
     return None
 
 
